@@ -1,4 +1,6 @@
 import PPLV.Watchdog.ProofsJudge
+import PPLV.Watchdog.ProofsAtomic
+import PPLV.Watchdog.ProofsLag4
 import PPLV.Watchdog.ProofsWeight
 
 /-!
@@ -18,13 +20,16 @@ centiseconds), `fired id t b cs` (handler action ran at real time `t`), `destroy
 * `never_early`, `prompt`, `deadline_order` are FALSE for the code as written and also for the code
   with the repaired `==` once a timer expiry may land inside a critical section: see the `_fails`
   theorems (concrete schedules, all replayed on the real library by `checks/c19.py`).  The
-  `_partial` versions are proved for the repaired `==` (`eqBug = false`) under `Quiet`:
-  no time passes inside a critical section (signals are delivered between public operations and at
-  the critical-section boundaries, including between the destructor's test of `expired` and its
-  critical section) and no negative delay is passed to a constructor.
-  What is missing for full strength: a proof for runs in which time passes inside critical
-  sections but no expiry lands there (the harness finds no violation in that class either), and
-  — impossible, see `_fails` — the runs with a deferred signal.
+  `_partial` versions are proved for the repaired `==` (`eqBug = false`):
+  `never_early_partial` for every statement-level schedule in which no timer expiry lands inside a
+  critical section (`NoDeferral`) and no negative delay is passed to a constructor — the exact side
+  condition: the excluded runs are those of the `_fails` theorems;
+  `exact_partial` / `prompt_partial` / `deadline_order_partial` under `Quiet`: no time passes inside a
+  critical section (signals are delivered between public operations and at the critical-section
+  boundaries, including between the destructor's test of `expired` and its critical section) and
+  no negative delay.  What is missing for full strength there: a quantitative version ("late by at
+  most the time spent inside critical sections") for runs where time passes inside critical
+  sections without an expiry; the harness judges exactly that bound on the real traces.
 -/
 namespace C19
 open PPLV.Watchdog
@@ -95,13 +100,40 @@ theorem never_early_fails_deferred_signal : ¬ ∀ sched, NeverEarly (run false 
   have := neverEarlyB_of (h deferredEarly)
   revert this; decide
 
-/-- never before `delay` has elapsed since the constructor was entered — repaired `==`, quiet runs -/
-theorem never_early_partial (sched : List Step) (hq : Quiet (run false sched)) :
-    NeverEarly (run false sched).log := by
-  intro id t b cs hf
-  obtain ⟨l, ⟨es, hl⟩, hex, _⟩ := quiet_log_facts (inv_run sched) hq.1 hq.2
-  have := hex id t b cs (by rw [hl]; exact List.mem_append_right _ hf)
-  omega
+/-- no signal has been deferred: no timer expiry landed inside a critical section -/
+def NoDeferral (σ : St) : Prop := ∀ t, Event.deferred t ∉ σ.log
+
+/-- never before `delay` has elapsed since the constructor was entered: repaired `==`, ANY schedule
+    of the statement-level system — time may pass between any two statements, also inside the
+    critical sections — in which no timer expiry lands inside a critical section and no negative
+    delay is given.  (The two excluded classes are exactly those of `never_early_fails_deferred_signal`
+    and of defect 17.) -/
+theorem never_early_partial (sched : List Step) (hnd : NoDeferral (run false sched))
+    (hargs : (run false sched).badArg = false) : NeverEarly (run false sched).log := by
+  rcases ninv_run sched with ⟨t, ht⟩ | hb | hl
+  · exact absurd ht (hnd t)
+  · rw [hargs] at hb; exact absurd hb (by simp)
+  · exact hl.base.fired
+
+/-- non-vacuity: time passes inside the constructor's critical section (between `get_timer` and the
+    re-arming `setitimer`), no signal is deferred, the watchdogs fire — late by the time that passed
+    there, never early -/
+example :
+    let s : List Step := atomicSched [.create 0 50] ++ [.create 1 10, .step, .tick 7, .step, .tick 9, .step, .step,
+                                       .tick 100000, .tick 400000]
+    (run false s).dirty = true ∧ (run false s).badArg = false ∧
+    (run false s).log.all (fun e => match e with | .deferred _ => false | _ => true) = true ∧
+    Event.fired 1 100016 0 10 ∈ (run false s).log ∧ Event.fired 0 500016 0 50 ∈ (run false s).log := by
+  decide
+
+/-- under the same conditions `set_timer` is never called with a null interval ("PPL internal
+    error") and no timer call fails -/
+theorem no_internal_error_partial (sched : List Step) (hnd : NoDeferral (run false sched))
+    (hargs : (run false sched).badArg = false) : (run false sched).err = false := by
+  rcases ninv_run sched with ⟨t, ht⟩ | hb | hl
+  · exact absurd ht (hnd t)
+  · rw [hargs] at hb; exact absurd hb (by simp)
+  · exact hl.base.noErr
 
 /-- in quiet runs the action runs EXACTLY at birth + delay (never early and prompt at once) -/
 theorem exact_partial (sched : List Step) (hq : Quiet (run false sched)) (id : Nat) (t b cs : Int)
@@ -177,6 +209,44 @@ example : orderB (run false (atomicSched [.create 0 10, .create 1 56, .tick 1000
     .tick 400000])).log = true ∧
     (firedList (run false (atomicSched [.create 0 10, .create 1 56, .tick 100000, .create 2 10, .tick 100000,
     .tick 400000])).log).length = 3 := by decide
+
+/-! ## the granularity of public operations
+
+`atomicSched ops`: every constructor / destructor of `ops` runs to completion before time passes
+again; time passes (and the handler runs) between the operations.  No hypothesis on the run is
+needed: with non-negative delays such a run is quiet. -/
+
+theorem atomic_is_quiet (ops : List Step) (hpos : NonNegDelays ops) :
+    Quiet (run false (atomicSched ops)) ∧ (run false (atomicSched ops)).inCrit = false := by
+  have := rest_atomic ops hpos {} rest_init
+  exact ⟨⟨this.clean, this.args⟩, this.clock.notCrit⟩
+
+/-- never early, at the granularity of public operations, repaired `==` -/
+theorem never_early_atomic (ops : List Step) (hpos : NonNegDelays ops) :
+    NeverEarly (run false (atomicSched ops)).log := by
+  intro id t b cs hf
+  have := exact_partial _ (atomic_is_quiet ops hpos).1 id t b cs hf
+  omega
+
+/-- exactly at the deadline, hence promptly: every watchdog whose deadline has been reached has
+    fired at its deadline, unless destroyed -/
+theorem prompt_atomic (ops : List Step) (hpos : NonNegDelays ops) :
+    Prompt (run false (atomicSched ops)) :=
+  prompt_partial _ (atomic_is_quiet ops hpos).1 (atomic_is_quiet ops hpos).2
+
+theorem deadline_order_atomic (ops : List Step) (hpos : NonNegDelays ops)
+    (pre post : List Event) (id : Nat) (t b cs : Int)
+    (h : (run false (atomicSched ops)).log = pre ++ Event.fired id t b cs :: post) :
+    ∀ id' t' b' cs', Event.fired id' t' b' cs' ∈ post → b' + cs' * 10000 ≤ b + cs * 10000 :=
+  deadline_order_partial _ (atomic_is_quiet ops hpos).1 pre post id t b cs h
+
+example : NonNegDelays [.create 0 10, .create 1 50, .tick 50000, .destroy 0, .tick 450000] ∧
+    Event.fired 1 500000 0 50 ∈
+      (run false (atomicSched [.create 0 10, .create 1 50, .tick 50000, .destroy 0, .tick 450000])).log := by
+  refine ⟨?_, by decide⟩
+  intro id cs h
+  simp at h
+  rcases h with ⟨_, h⟩ | ⟨_, h⟩ <;> omega
 
 /-! ## the weight watcher -/
 
